@@ -1,4 +1,4 @@
-import Saito.Lemmas.LoopOk
+import Saito.Lemmas.LoopFixed
 /-!
 # C04 — a rejected block leaves no trace; block processing always returns
 * `fixed_*`: the repaired reorganisation (flag `windFailureRestores`) is total and restores the ledger.
@@ -9,7 +9,29 @@ import Saito.Lemmas.LoopOk
 namespace Saito.C04
 open Saito.Chain
 
-/-- with the repaired failure path `Blockchain::validate` always returns (no fuel is involved at all) -/
+/-- the repaired Wind/Unwind loop returns from EVERY loop state, for every pair of chains and every validity
+    pattern, once the fuel exceeds the measure `muF` (at most `2·(|new| + |old|) + 3` at the loop's start) -/
+theorem fixed_loop_returns (fl : Flags) (newC oldC : List Nat) (fuel : Nat) (st : State) (w : WR)
+    (h : muF newC.length oldC.length w < fuel) : runWRF fl newC oldC fuel st w ≠ none :=
+  runWRF_returns fl newC oldC fuel st w h
+
+theorem fixed_loop_start_returns (fl : Flags) (st : State) (newC oldC : List Nat) :
+    (if oldC.isEmpty = true then
+        runWRF fl newC oldC (2 * (newC.length + oldC.length) + 4) st (WR.wind (newC.length - 1) false)
+      else runWRF fl newC oldC (2 * (newC.length + oldC.length) + 4) st (WR.unwind 0 false oldC)) ≠ none := by
+  split
+  · rename_i he
+    have ho : oldC.length = 0 := by
+      cases oldC with
+      | nil => rfl
+      | cons _ _ => simp at he
+    apply runWRF_returns
+    simp only [muF, ho]; omega
+  · apply runWRF_returns
+    simp only [muF]; omega
+
+/-- with the repaired failure path `Blockchain::validate` always returns: the fuel the model gives the repaired
+    loop is never exhausted, so the answer `stall` is impossible -/
 theorem fixed_validate_returns (fl : Flags) (hf : fl.windFailureRestores = true) (st : State) (newC oldC : List Nat) :
     validate fl st newC oldC ≠ none := by
   unfold validate
@@ -17,8 +39,14 @@ theorem fixed_validate_returns (fl : Flags) (hf : fl.windFailureRestores = true)
   · simp
   · split
     · simp
-    · simp only [hf]
-      split <;> (split <;> simp)
+    · simp only [hf, if_true]
+      split
+      · split
+        · simp
+        · exact fixed_loop_start_returns fl st newC oldC
+      · split
+        · simp
+        · exact fixed_loop_start_returns fl st newC oldC
 
 /-- C04 (ledger part), repaired failure path: a reorganisation that fails part-way leaves the spendable set
     exactly as it was, for every fork shape, every position of the offending block and every segment length. -/
